@@ -4,7 +4,7 @@
    split property is false: Proofs.ParserProofs.parse_split_refuted_before_repair. *)
 From Coq Require Import ZArith List.
 From SP Require Import Base.Result Base.Bytes Model.SpacePacket Model.Parser Model.ParserFast
-  Spec.SpacePacketSpec Spec.ParserSpec Proofs.ParserProofs Proofs.ParserFast.
+  Spec.SpacePacketSpec Spec.ParserSpec Proofs.ParserProofs Proofs.ParserFast Proofs.ParserTail.
 Import ListNotations.
 Open Scope Z_scope.
 
@@ -85,6 +85,107 @@ Theorem C13_parse_stream_junk : forall raws segs trail,
   exists q, parse_buf raws (junk_stream segs trail) = Ok (map snd segs, q).
 Proof. exact parse_stream_junk. Qed.
 Print Assumptions C13_parse_stream_junk.
+
+(* ---- the queue keeps exactly the not-yet-complete tail, and a later call finishes it ---- *)
+
+(* complete packets followed by a strict, non-empty prefix of one more packet (cut anywhere: inside
+   the 6-octet header, right after it, one octet before the end): every complete packet is
+   returned and the queue holds exactly the prefix; parsing the queue with the missing octets
+   appended returns the packet whole and empties the queue *)
+Theorem C13_parse_tail_kept_then_finished : forall raws ps pk n,
+  Forall (wf_packet raws) ps -> wf_packet raws pk -> (0 < n < length pk)%nat ->
+  parse_buf raws (concat ps ++ firstn n pk) = Ok (ps, [firstn n pk]) /\
+  parse_buf raws (firstn n pk ++ skipn n pk) = Ok ([pk], []).
+Proof. exact parse_tail_kept_then_finished. Qed.
+Print Assumptions C13_parse_tail_kept_then_finished.
+
+Theorem C13_parse_tail_finished : forall raws pk n ps',
+  wf_packet raws pk -> Forall (wf_packet raws) ps' ->
+  parse_buf raws (concat [firstn n pk] ++ skipn n pk ++ concat ps') = Ok (pk :: ps', []).
+Proof. exact parse_tail_finished. Qed.
+Print Assumptions C13_parse_tail_finished.
+
+(* histories from ANY queue content that end with a parse (generalises C13_parse_chunked_final) *)
+Theorem C13_parse_chunked_final_from : forall raws ops ids q0,
+  Forall wf_bytes q0 -> Forall (op_ok raws) ops -> ids_raw ids = raws ->
+  exists obs, run_ops q0 (ops ++ [Parse ids]) = Ok obs /\
+    parse_buf raws (concat q0 ++ appended ops) = Ok (concat (map fst obs), last (map snd obs) q0).
+Proof. exact parse_chunked_final_from. Qed.
+Print Assumptions C13_parse_chunked_final_from.
+
+(* under every fragmentation and interleaving: a stream that ends inside a packet leaves exactly
+   the octets of that packet received so far ... *)
+Theorem C13_parse_fragmented_tail_kept : forall raws ops ids ps pk n,
+  Forall (op_ok raws) ops -> ids_raw ids = raws ->
+  Forall (wf_packet raws) ps -> wf_packet raws pk -> (0 < n < length pk)%nat ->
+  appended ops = concat ps ++ firstn n pk ->
+  exists obs, run_ops [] (ops ++ [Parse ids]) = Ok obs /\
+    concat (map fst obs) = ps /\ last (map snd obs) [] = [firstn n pk].
+Proof. exact parse_fragmented_tail_kept. Qed.
+Print Assumptions C13_parse_fragmented_tail_kept.
+
+(* ... and any later history (again cut anywhere, any interleaving) delivering the missing octets
+   and further complete packets returns the packet whole, once, before the others; queue empty *)
+Theorem C13_parse_fragmented_tail_finished : forall raws ops ids pk n ps',
+  Forall (op_ok raws) ops -> ids_raw ids = raws ->
+  wf_packet raws pk -> Forall (wf_packet raws) ps' ->
+  appended ops = skipn n pk ++ concat ps' ->
+  exists obs, run_ops [firstn n pk] (ops ++ [Parse ids]) = Ok obs /\
+    concat (map fst obs) = pk :: ps' /\ last (map snd obs) [firstn n pk] = [].
+Proof. exact parse_fragmented_tail_finished. Qed.
+Print Assumptions C13_parse_fragmented_tail_finished.
+
+(* ---- junk AND fragmentation together, remainder characterised ----
+   junk_rest trail = the last (at most 6) octets of the trailing junk: fewer than 7 octets
+   cannot be decided yet (a packet is at least 7 octets long), so they stay in the queue *)
+Theorem C13_parse_stream_junk_rest : forall raws segs trail,
+  Forall (fun jp => wf_bytes (fst jp) /\ wf_packet raws (snd jp) /\ junk_ok raws (fst jp) (snd jp)) segs ->
+  wf_bytes trail -> junk_ok raws trail [] ->
+  parse_buf raws (junk_stream segs trail) = Ok (map snd segs, to_queue (junk_rest trail)).
+Proof. exact parse_stream_junk_rest. Qed.
+Print Assumptions C13_parse_stream_junk_rest.
+
+Theorem C13_parse_fragmented_stream_junk : forall raws ops ids segs trail,
+  Forall (op_ok raws) ops -> ids_raw ids = raws ->
+  Forall (fun jp => wf_bytes (fst jp) /\ wf_packet raws (snd jp) /\ junk_ok raws (fst jp) (snd jp)) segs ->
+  wf_bytes trail -> junk_ok raws trail [] ->
+  appended ops = junk_stream segs trail ->
+  exists obs, run_ops [] (ops ++ [Parse ids]) = Ok obs /\
+    concat (map fst obs) = map snd segs /\
+    last (map snd obs) [] = to_queue (junk_rest trail).
+Proof. exact parse_fragmented_stream_junk. Qed.
+Print Assumptions C13_parse_fragmented_stream_junk.
+
+(* junk, fragmentation and a stream ending inside a packet of which at least 7 octets arrived *)
+Theorem C13_parse_fragmented_stream_junk_tail : forall raws ops ids segs j pk n,
+  Forall (op_ok raws) ops -> ids_raw ids = raws ->
+  Forall (fun jp => wf_bytes (fst jp) /\ wf_packet raws (snd jp) /\ junk_ok raws (fst jp) (snd jp)) segs ->
+  wf_bytes j -> wf_packet raws pk -> junk_ok raws j pk -> (7 <= n < length pk)%nat ->
+  appended ops = junk_stream segs (j ++ firstn n pk) ->
+  exists obs, run_ops [] (ops ++ [Parse ids]) = Ok obs /\
+    concat (map fst obs) = map snd segs /\ last (map snd obs) [] = [firstn n pk].
+Proof. exact parse_fragmented_stream_junk_tail. Qed.
+Print Assumptions C13_parse_fragmented_stream_junk_tail.
+
+(* ... of which fewer than 7 octets arrived: the last 6 octets of (junk ++ prefix) stay, and
+   they end with the prefix *)
+Theorem C13_parse_fragmented_stream_junk_short_tail : forall raws ops ids segs j pk n,
+  Forall (op_ok raws) ops -> ids_raw ids = raws ->
+  Forall (fun jp => wf_bytes (fst jp) /\ wf_packet raws (snd jp) /\ junk_ok raws (fst jp) (snd jp)) segs ->
+  wf_bytes j -> wf_packet raws pk -> junk_ok raws j pk -> (0 < n <= 6)%nat ->
+  appended ops = junk_stream segs (j ++ firstn n pk) ->
+  exists obs, run_ops [] (ops ++ [Parse ids]) = Ok obs /\
+    concat (map fst obs) = map snd segs /\
+    last (map snd obs) [] = [junk_rest (j ++ firstn n pk)] /\
+    exists k, skipn k (junk_rest (j ++ firstn n pk)) = firstn n pk.
+Proof. exact parse_fragmented_stream_junk_short_tail. Qed.
+Print Assumptions C13_parse_fragmented_stream_junk_short_tail.
+
+Example C13_tail_kept_example :
+  parse_buf [2051] ([8; 3; 192; 0; 0; 0; 85] ++ [8; 3]) = Ok ([[8; 3; 192; 0; 0; 0; 85]], [[8; 3]]) /\
+  parse_buf [2051] ([0; 255] ++ [8; 3; 192; 0; 0; 0; 85] ++ [1; 2; 3; 4; 5; 6; 7; 9]) =
+    Ok ([[8; 3; 192; 0; 0; 0; 85]], [[3; 4; 5; 6; 7; 9]]).
+Proof. exact tail_kept_example. Qed.
 
 (* soundness: whatever the parser returns is a registered packet of exactly its declared length *)
 Theorem C13_parse_buf_sound : forall raws buf ps q, wf_bytes buf ->
